@@ -639,7 +639,7 @@ example : hNoDefect C₀ W₀ [s₀] [.on 0 (.setitem "c" 1007), .on 0 (.setattr
     .on 0 (.delitem "c")] = true := by decide
 
 /-- **Known defect (stale-dependant-after-delete).**  The full freshness statement is false for the code
-as it is: deleting `c` (schema.py:368-394 recomputes nothing) leaves the property `p` stored with the
+as it is: deleting `c` (schema.py:373-399 recomputes nothing) leaves the property `p` stored with the
 value computed from the deleted `c`. -/
 theorem C07_stale_dependant_witness :
     Fresh C₀ W₀ s₀ ∧ knownDefect C₀ s₀ (.delitem "c") = true ∧
